@@ -475,3 +475,82 @@ func GoodEveryValue(vals [][]byte, enc func(uint64) (int, error), data []byte) (
 	}
 	return data, nil
 }
+
+// CHUNK-START-INCLUSIVE
+type chunked struct{ chunkSize uint64 }
+
+func (c *chunked) BadChunkStartStrict(doc, chunk uint64) bool {
+	return doc > chunk*c.chunkSize
+}
+
+func (c *chunked) GoodChunkStartInclusive(doc, chunk uint64) bool {
+	return doc >= chunk*c.chunkSize
+}
+
+// MEMO-PRIMED
+type table struct{ rows map[string][]int }
+
+func (t *table) lookup(name string) []int { return t.rows[name] }
+
+func BadMemoZeroSentinel(t *table, names []string) int {
+	n := 0
+	var last string
+	var rows []int
+	for _, name := range names {
+		if name != last {
+			rows = t.lookup(name)
+			last = name
+		}
+		n += len(rows)
+	}
+	return n
+}
+
+func GoodMemoFirstRound(t *table, names []string) int {
+	n := 0
+	var last string
+	var rows []int
+	for i, name := range names {
+		if i == 0 || name != last {
+			rows = t.lookup(name)
+			last = name
+		}
+		n += len(rows)
+	}
+	return n
+}
+
+func GoodMemoValueTest(t *table, names []string) int {
+	n := 0
+	var last string
+	var rows []int
+	for _, name := range names {
+		if rows == nil || name != last {
+			rows = t.lookup(name)
+			last = name
+		}
+		n += len(rows)
+	}
+	return n
+}
+
+// NARROW-GUARD
+type cursor struct{ at uint32 }
+
+func (c *cursor) seek(to uint32) { c.at = to }
+
+type Scanner struct{ c cursor }
+
+func (s *Scanner) BadSeekNarrowed(to uint64) { s.seekTo(to) }
+
+func (s *Scanner) seekTo(to uint64) { s.c.seek(uint32(to)) }
+
+func (s *Scanner) GoodSeekGuarded(to uint64) {
+	if to > 0xffffffff {
+		s.c.at = 0xffffffff
+		return
+	}
+	s.seekChecked(to)
+}
+
+func (s *Scanner) seekChecked(to uint64) { s.c.seek(uint32(to)) }
